@@ -35,11 +35,16 @@ CONSTANTS
   OpMenu,      \* set of operation descriptors (kind + flags) to explore
   EditMenu,    \* set of out-of-band edit descriptors
   PreMenu,     \* set of initial cluster contents
-  Objs         \* object ids of the cluster (resources, hooks, bystander)
+  Objs,        \* object ids of the cluster (resources, hooks, bystander)
+  MenuGuard(_),\* state-dependent filter on the menu (TRUE for exhaustive runs; biases simulation)
+  Planned,     \* TRUE (generators): fault / crash positions are drawn when the operation begins, so that
+               \* random simulation spreads them uniformly over the calls; FALSE: any call may fail
+  MaxPlan,     \* largest planned position
+  KeepLog      \* TRUE: keep the per-operation call log (needed by the ordering properties)
 
-VARIABLES store, cluster, pc, op, nops, nfaults, ncrash, nedits, last, pre, hist
+VARIABLES store, cluster, pc, op, nops, nfaults, ncrash, nedits, last, pre, hist, kfg
 
-vars == <<store, cluster, pc, op, nops, nfaults, ncrash, nedits, last, pre, hist>>
+vars == <<store, cluster, pc, op, nops, nfaults, ncrash, nedits, last, pre, hist, kfg>>
 
 Rev == 1..MaxRev
 
@@ -54,10 +59,10 @@ NoOp == [u |-> NoU,
          new |-> 0, orig |-> 0, tgt |-> 0, newrec |-> NoRec,
          curman |-> <<>>, tgtman |-> <<>>, hdefs |-> <<>>, adopted |-> {}, k3 |-> FALSE,
          todo |-> {}, tseq |-> <<>>, dseq |-> <<>>, hrevs |-> {},
-         created |-> {}, posted |-> {}, uerr |-> FALSE, errs |-> FALSE,
+         created |-> {}, posted |-> {}, crs |-> {}, log |-> <<>>, uerr |-> FALSE, errs |-> FALSE,
          memSt |-> "", origSt |-> "",
          hk |-> NoHk, kctx |-> "", pctx |-> "", ret |-> "",
-         result |-> "", n |-> 0, faultAt |-> 0, flt |-> {}, swallowed |-> FALSE]
+         result |-> "", n |-> 0, faultAt |-> 0, flt |-> {}, kf |-> {}, plan |-> 0, cplan |-> 0]
 
 Used     == {r \in Rev : store[r].st # "none"}
 Last     == MaxOf(Used)
@@ -233,7 +238,7 @@ Resolve1(t) ==
     [] t.pc = "I_Fail"     -> IFail(t.op)
     [] t.pc = "U_Apply"    -> KStart(t.op, "upgrade", t.op.curman, t.op.tgtman, FALSE)
     [] t.pc = "R_Apply"    -> KStart(t.op, "rollback", t.op.curman, t.op.tgtman, FALSE)
-    [] t.pc = "R_HookFail" -> REnd(t.op, "err")              \* returns without recording: stays pending-rollback (L3)
+    [] t.pc = "R_HookFail" -> REnd([t.op EXCEPT !.kf = @ \cup {"L3"}], "err")              \* returns without recording: stays pending-rollback (L3)
     [] t.pc = "X_HookFail" -> XEnd(t.op, "err")
     [] t.pc = "X_Fin"      -> X_FinT(t.op)
     [] OTHER               -> t
@@ -254,35 +259,42 @@ CallL(p, kind, verb, id, ok, inj) == last' = Lab(p, "call", kind, verb, id, ok, 
 Go(p, t) ==
   LET r == Resolve(t) IN
   /\ pc' = [pc EXCEPT ![p] = r.pc]
-  /\ op' = [op EXCEPT ![p] = [r.op EXCEPT !.n = op[p].n + 1]]
+  /\ op' = [op EXCEPT ![p] = [r.op EXCEPT !.n = op[p].n + 1,
+                                          !.log = IF KeepLog THEN Append(@, last') ELSE @]]
   /\ UNCHANGED hist
 
 \* same, and the fault plan hit this call (class cls)
 GoF(p, t, cls) ==
   LET r == Resolve(t) IN
   /\ pc' = [pc EXCEPT ![p] = r.pc]
-  /\ op' = [op EXCEPT ![p] = [r.op EXCEPT !.n = op[p].n + 1, !.faultAt = op[p].n + 1, !.flt = @ \cup {cls}]]
-  /\ hist' = [hist EXCEPT ![Len(hist)].fault = op[p].n + 1]
+  /\ op' = [op EXCEPT ![p] = [r.op EXCEPT !.n = op[p].n + 1, !.faultAt = op[p].n + 1, !.flt = @ \cup {cls},
+                                          !.log = IF KeepLog THEN Append(@, last') ELSE @]]
+  /\ hist' = [hist EXCEPT ![Len(hist)].fault = op[p].n + 1, ![Len(hist)].flab = last']
 
-CanInj(cls) == cls \in FaultKinds /\ nfaults < MaxFaults
+CanInj(p, cls) ==
+  /\ cls \in FaultKinds /\ nfaults < MaxFaults
+  /\ op[p].faultAt = 0                                 \* one injected fault per operation
+  /\ Planned => op[p].plan = op[p].n + 1
+\* with a plan, the planned call fails whenever it is a fault point
+MustInj(p, cls) == Planned /\ CanInj(p, cls)
 Inj   == nfaults' = nfaults + 1
 NoInj == UNCHANGED nfaults
 
-Budgets == UNCHANGED <<nops, ncrash, nedits, pre>>
+Budgets == UNCHANGED <<nops, ncrash, nedits, pre, kfg>>
 
 \* One storage write.  possible: the driver finds the key state it needs; eff: the store
 \* afterwards; okT / failT / injT: transitions on success / natural failure / injected failure.
 StoreWrite(p, verb, r, possible, eff, okT, failT, injT) ==
   /\ UNCHANGED cluster
-  /\ \/ /\ possible
+  /\ \/ /\ possible /\ ~MustInj(p, "store")
         /\ store' = eff
         /\ CallL(p, "store", verb, ToString(r), TRUE, FALSE)
         /\ Go(p, okT) /\ NoInj
-     \/ /\ ~possible
+     \/ /\ ~possible /\ ~MustInj(p, "store")
         /\ UNCHANGED store
         /\ CallL(p, "store", verb, ToString(r), FALSE, FALSE)
         /\ Go(p, failT) /\ NoInj
-     \/ /\ CanInj("store") /\ Inj
+     \/ /\ CanInj(p, "store") /\ Inj
         /\ UNCHANGED store
         /\ CallL(p, "store", verb, ToString(r), FALSE, TRUE)
         /\ GoF(p, injT, "store")
@@ -296,19 +308,21 @@ StoreRead(p, verb, id, ok, t) ==
 \* One HTTP request for object o.
 ResCall(p, verb, o, okNat, clNat, natT, injT) ==
   /\ UNCHANGED store
-  /\ \/ /\ cluster' = clNat
+  /\ \/ /\ ~MustInj(p, "res")
+        /\ cluster' = clNat
         /\ CallL(p, "res", verb, o, okNat, FALSE)
         /\ Go(p, natT) /\ NoInj
-     \/ /\ CanInj("res") /\ Inj
+     \/ /\ CanInj(p, "res") /\ Inj
         /\ UNCHANGED cluster
         /\ CallL(p, "res", verb, o, FALSE, TRUE)
         /\ GoF(p, injT, "res")
 
 WaitCall(p, verb, id, okT, injT) ==
   /\ UNCHANGED <<store, cluster>>
-  /\ \/ /\ CallL(p, "wait", verb, id, TRUE, FALSE)
+  /\ \/ /\ ~MustInj(p, "wait")
+        /\ CallL(p, "wait", verb, id, TRUE, FALSE)
         /\ Go(p, okT) /\ NoInj
-     \/ /\ CanInj("wait") /\ Inj
+     \/ /\ CanInj(p, "wait") /\ Inj
         /\ CallL(p, "wait", verb, id, FALSE, TRUE)
         /\ GoF(p, injT, "wait")
 
@@ -318,7 +332,7 @@ DelEff(o) == [cluster EXCEPT ![o] = Absent]
 Batch(S, rank(_)) == {r \in S : \A s \in S : rank(r) <= rank(s)}
 
 \* a swallowed injected failure: the operation goes on as if nothing happened (L5)
-Swallow(t) == [pc |-> t.pc, op |-> [t.op EXCEPT !.swallowed = TRUE]]
+Swallow(t) == [pc |-> t.pc, op |-> [t.op EXCEPT !.kf = @ \cup {"L5"}]]
 
 -----------------------------------------------------------------------------
 (* ======================================================================= *)
@@ -341,10 +355,11 @@ H_Record(p) ==
 H_Create(p) ==
   /\ pc[p] = "H_Create" /\ Budgets
   /\ LET o == op[p]  h == o.hk.seq[o.hk.i] IN
+     \* a rejected create returns at once: earlier succeeded hooks are not deleted by policy (L14)
+     LET f == HookFailOut([o EXCEPT !.kf = @ \cup {"L14"}]) IN
      IF Present(h)
-     THEN ResCall(p, "POST", h, FALSE, cluster, HookFailOut(o), HookFailOut(o))    \* 409 already exists
-     ELSE ResCall(p, "POST", h, TRUE, [cluster EXCEPT ![h] = HookObj],
-                  [pc |-> "H_Watch", op |-> o], HookFailOut(o))
+     THEN ResCall(p, "POST", h, FALSE, cluster, f, f)                               \* 409 already exists
+     ELSE ResCall(p, "POST", h, TRUE, [cluster EXCEPT ![h] = HookObj], [pc |-> "H_Watch", op |-> o], f)
 
 H_Watch(p) ==
   /\ pc[p] = "H_Watch" /\ Budgets
@@ -379,7 +394,7 @@ K_Get(p) ==
      THEN ResCall(p, "GET", r, FALSE, cluster,
                   [pc |-> "K_Post", op |-> [o EXCEPT !.created = @ \cup {r}]], KFail(o))
      ELSE IF r \notin DOMAIN o.curman
-          THEN ResCall(p, "GET", r, TRUE, cluster, KFail(o), KFail(o))       \* "no X with the name found" (L4)
+          THEN ResCall(p, "GET", r, TRUE, cluster, KFail([o EXCEPT !.kf = @ \cup {"L4"}]), KFail(o))   \* "no X with the name found" (L4)
           ELSE ResCall(p, "GET", r, TRUE, cluster, [pc |-> "K_Get2", op |-> o], KFail(o))
 
 K_Post(p) ==
@@ -395,11 +410,12 @@ K_Get2(p) ==
   /\ pc[p] = "K_Get2" /\ Budgets
   /\ LET o == op[p]  r == Head(o.tseq)
          empty == PatchEmpty(o.curman[r], o.tgtman[r], cluster[r], r \in o.adopted, o.k3)
+         o6 == [o EXCEPT !.kf = IF ~Typed(o.tgtman[r].kind) /\ ~o.k3 THEN @ \cup {"L6"} ELSE @]
          errT == KNext([o EXCEPT !.uerr = TRUE]) IN
      IF ~Present(r)
      THEN ResCall(p, "GET", r, FALSE, cluster, [pc |-> "K_Patch", op |-> o], errT)
      ELSE ResCall(p, "GET", r, TRUE, cluster,
-                  [pc |-> IF empty THEN "K_Refresh" ELSE "K_Patch", op |-> o], errT)
+                  [pc |-> IF empty THEN "K_Refresh" ELSE "K_Patch", op |-> o6], errT)
 
 K_Patch(p) ==
   /\ pc[p] = "K_Patch" /\ Budgets
@@ -487,7 +503,7 @@ I_Own(p) ==
 \* replaceRelease
 I_ReplHist(p) ==
   /\ pc[p] = "I_ReplHist" /\ Budgets
-  /\ LET o == op[p] IN
+  /\ LET o == [op[p] EXCEPT !.kf = IF Deployed # {} /\ MaxOf(Deployed) # Last THEN @ \cup {"L1"} ELSE @] IN
      StoreRead(p, "query", "history", Used # {},
                IF Used = {} THEN [pc |-> "I_Create", op |-> [o EXCEPT !.new = 1]]
                ELSE IF Last = MaxRev THEN Done(o, "err")
@@ -505,7 +521,7 @@ I_Create(p) ==
   /\ pc[p] = "I_Create" /\ Budgets
   /\ LET o == op[p]
          rec == MkRec("pending-install", o.u.chart)
-         o1 == [o EXCEPT !.memSt = "pending-install"]
+         o1 == [o EXCEPT !.memSt = "pending-install", !.crs = @ \cup {o.new}]
          okT == EnterHooks(o1, "pre-install", o.new, rec.hooks, "I_Apply", "I_Fail") IN
      StoreWrite(p, "create", o.new, store[o.new].st = "none", [store EXCEPT ![o.new] = rec],
                 okT, Done(o, "err"), Done(o, "err"))
@@ -534,7 +550,8 @@ I_Wait(p) ==
 I_Deployed(p) ==
   /\ pc[p] = "I_Deployed" /\ Budgets
   /\ LET o == op[p]  t == Done(o, "ok") IN
-     StoreWrite(p, "update", o.new, store[o.new].st # "none", SetSt(store, o.new, "deployed"), t, t, t)  \* error swallowed (L2)
+     StoreWrite(p, "update", o.new, store[o.new].st # "none", SetSt(store, o.new, "deployed"), t, t,
+                Done([o EXCEPT !.kf = @ \cup {"L2i"}], "ok"))                       \* error swallowed (L2)
 
 I_FailRec(p) ==
   /\ pc[p] = "I_FailRec" /\ Budgets
@@ -559,8 +576,9 @@ X_Mark(p) ==
   /\ pc[p] = "X_Mark" /\ Budgets
   /\ LET o == op[p]
          dels == XDelSet(o.tgtman)
-         t == IF dels = {} THEN XAfterDel(o)
-              ELSE [pc |-> "X_Del", op |-> [o EXCEPT !.todo = dels, !.uerr = FALSE]] IN
+         o2 == [o EXCEPT !.kf = IF \E r \in DOMAIN o.tgtman : o.tgtman[r].pol = "other" THEN @ \cup {"L7"} ELSE @]
+         t == IF dels = {} THEN XAfterDel(o2)
+              ELSE [pc |-> "X_Del", op |-> [o2 EXCEPT !.todo = dels, !.uerr = FALSE]] IN
      StoreWrite(p, "update", o.tgt, store[o.tgt].st # "none", SetSt(store, o.tgt, "uninstalling"), t, t, t)
 
 X_Del(p) ==
@@ -621,7 +639,7 @@ U_Create(p) ==
   /\ pc[p] = "U_Create" /\ Budgets
   /\ LET o == op[p]
          rec == MkRec("pending-upgrade", o.u.chart)
-         o1 == [o EXCEPT !.memSt = "pending-upgrade", !.created = {}]
+         o1 == [o EXCEPT !.memSt = "pending-upgrade", !.created = {}, !.crs = @ \cup {o.new}]
          okT == EnterHooks(o1, "pre-upgrade", o.new, rec.hooks, "U_Apply", "U_FailRec") IN
      StoreWrite(p, "create", o.new, store[o.new].st = "none", [store EXCEPT ![o.new] = rec],
                 okT, Done(o, "err"), Done(o, "err"))
@@ -642,7 +660,8 @@ U_Wait(p) ==
 U_Supersede(p) ==
   /\ pc[p] = "U_Supersede" /\ Budgets
   /\ LET o == op[p]  t == [pc |-> "U_RecDeployed", op |-> o] IN
-     StoreWrite(p, "update", o.orig, store[o.orig].st # "none", SetSt(store, o.orig, "superseded"), t, t, t)  \* swallowed (L2)
+     StoreWrite(p, "update", o.orig, store[o.orig].st # "none", SetSt(store, o.orig, "superseded"), t, t,
+                [pc |-> "U_RecDeployed", op |-> [o EXCEPT !.kf = @ \cup {"L2u"}]])   \* swallowed (L2)
 
 U_RecDeployed(p) ==
   /\ pc[p] = "U_RecDeployed" /\ Budgets
@@ -674,7 +693,8 @@ A_Hist(p) ==
          good == {r \in Used : store[r].st \in {"superseded", "deployed"}} IN
      StoreRead(p, "query", "history", Used # {},
        IF good = {} THEN Done(o, "err")
-       ELSE [pc |-> "R_Last", op |-> [o EXCEPT !.ret = "atomicUpgrade", !.ver = MaxOf(good), !.lim = 0,
+       ELSE [pc |-> "R_Last", op |-> [o EXCEPT !.kf = IF o.u.lim > 0 THEN @ \cup {"L15"} ELSE @,
+                                               !.ret = "atomicUpgrade", !.ver = MaxOf(good), !.lim = 0,
                                                !.cleanup = FALSE, !.nohooks = o.u.nohooks]])   \* rollin.MaxHistory stays 0 (L15)
 
 (* ----- rollback ---------------------------------------------------------------------- *)
@@ -705,7 +725,7 @@ R_GetTgt(p) ==
 R_Create(p) ==
   /\ pc[p] = "R_Create" /\ Budgets
   /\ LET o == op[p]
-         o1 == [o EXCEPT !.memSt = "pending-rollback", !.created = {}]
+         o1 == [o EXCEPT !.memSt = "pending-rollback", !.created = {}, !.crs = @ \cup {o.new}]
          okT == EnterHooks(o1, "pre-rollback", o.new, o.newrec.hooks, "R_Apply", "R_HookFail") IN
      StoreWrite(p, "create", o.new, store[o.new].st = "none", [store EXCEPT ![o.new] = o.newrec],
                 okT, REnd(o, "err"), REnd(o, "err"))
@@ -750,9 +770,10 @@ R_DepAll(p) ==
 R_Sup(p) ==
   /\ pc[p] = "R_Sup" /\ Budgets
   /\ LET o == op[p]  r == Head(o.dseq)
-         t == IF Len(o.dseq) <= 1 THEN [pc |-> "R_RecDeployed", op |-> [o EXCEPT !.dseq = <<>>]]
-              ELSE [pc |-> "R_Sup", op |-> [o EXCEPT !.dseq = Tail(@)]] IN
-     StoreWrite(p, "update", r, store[r].st # "none", SetSt(store, r, "superseded"), t, t, t)
+         nx(oo) == IF Len(oo.dseq) <= 1 THEN [pc |-> "R_RecDeployed", op |-> [oo EXCEPT !.dseq = <<>>]]
+                   ELSE [pc |-> "R_Sup", op |-> [oo EXCEPT !.dseq = Tail(@)]] IN
+     StoreWrite(p, "update", r, store[r].st # "none", SetSt(store, r, "superseded"), nx(o), nx(o),
+                nx([o EXCEPT !.kf = @ \cup {"L2r"}]))                            \* cfg.recordRelease: error swallowed (L2)
 
 R_RecDeployed(p) ==
   /\ pc[p] = "R_RecDeployed" /\ Budgets
@@ -780,16 +801,19 @@ BeginT(m) ==
 BeginWith(p, m) ==
   /\ pc[p] = "idle" /\ nops[p] < MaxOps
   /\ Sequential => Idle
-  /\ LET t == Resolve(BeginT(m)) IN
+  /\ \E pl \in (IF Planned /\ nfaults < MaxFaults THEN 0..MaxPlan ELSE {0}),
+        cp \in (IF Planned /\ ncrash < MaxCrash THEN 0..MaxPlan ELSE {0}) :
+     LET t == Resolve(BeginT(m)) IN
+       /\ pl # 0 => cp = 0
        /\ pc' = [pc EXCEPT ![p] = t.pc]
-       /\ op' = [op EXCEPT ![p] = t.op]
+       /\ op' = [op EXCEPT ![p] = [t.op EXCEPT !.plan = pl, !.cplan = cp]]
        /\ last' = Lab(p, "begin", m.kind, "", "", TRUE, FALSE)
-       /\ hist' = Append(hist, [step |-> "op", p |-> p, m |-> m, fault |-> 0, crash |-> 0])
+       /\ hist' = Append(hist, [step |-> "op", p |-> p, m |-> m, fault |-> 0, crash |-> 0, flab |-> Lab(0, "", "", "", "", TRUE, FALSE)])
   /\ nops' = [nops EXCEPT ![p] = @ + 1]
   /\ pre' = [pre EXCEPT ![p] = [store |-> store, cluster |-> cluster]]
-  /\ UNCHANGED <<store, cluster, nfaults, ncrash, nedits>>
+  /\ UNCHANGED <<store, cluster, nfaults, ncrash, nedits, kfg>>
 
-Begin(p) == \E m \in OpMenu : BeginWith(p, m)
+Begin(p) == \E m \in OpMenu : MenuGuard(m) /\ BeginWith(p, m)
 
 End(p) ==
   /\ pc[p] = "End"
@@ -797,17 +821,20 @@ End(p) ==
   /\ op' = [op EXCEPT ![p] = NoOp]
   /\ last' = Lab(p, "end", op[p].u.kind, "", "", op[p].result = "ok", FALSE)
   /\ pre' = [pre EXCEPT ![p] = [store |-> <<>>, cluster |-> <<>>]]
+  /\ kfg' = kfg \cup op[p].kf
   /\ UNCHANGED <<store, cluster, nops, nfaults, ncrash, nedits, hist>>
 
 \* the process dies before its next call; nothing it did afterwards can reach shared state
 Crash(p) ==
   /\ pc[p] \notin {"idle", "End"} /\ ncrash < MaxCrash
+  /\ Planned => op[p].cplan = op[p].n + 1
   /\ ncrash' = ncrash + 1
   /\ pc' = [pc EXCEPT ![p] = "idle"]
   /\ op' = [op EXCEPT ![p] = NoOp]
   /\ last' = Lab(p, "crash", op[p].u.kind, "", "", FALSE, FALSE)
   /\ hist' = [hist EXCEPT ![Len(hist)].crash = op[p].n + 1]
   /\ pre' = [pre EXCEPT ![p] = [store |-> <<>>, cluster |-> <<>>]]
+  /\ kfg' = kfg \cup op[p].kf
   /\ UNCHANGED <<store, cluster, nops, nfaults, nedits>>
 
 SetField(obj, f, v) == IF f = "f1" THEN [obj EXCEPT !.f1 = v] ELSE [obj EXCEPT !.f2 = v]
@@ -821,7 +848,7 @@ EditWith(e) ==
   /\ last' = Lab(0, "edit", e.kind, IF e.kind = "edit" THEN e.field \o "=" \o e.value ELSE "", e.res, TRUE, FALSE)
   /\ hist' = Append(hist, [step |-> "edit", e |-> e])
   /\ nedits' = nedits + 1
-  /\ UNCHANGED <<store, pc, op, nops, nfaults, ncrash, pre>>
+  /\ UNCHANGED <<store, pc, op, nops, nfaults, ncrash, pre, kfg>>
 
 Edit == \E e \in EditMenu : EditWith(e) /\ cluster' # cluster
 
@@ -837,7 +864,9 @@ CallStep(p) ==
   \/ R_Last(p) \/ R_Hist(p) \/ R_GetTgt(p) \/ R_Create(p) \/ R_FailCur(p) \/ R_FailNew(p) \/ R_Wait(p)
   \/ R_WFailCur(p) \/ R_WFailNew(p) \/ R_DepAll(p) \/ R_Sup(p) \/ R_RecDeployed(p)
 
-Next == \/ \E p \in Procs : Begin(p) \/ End(p) \/ Crash(p) \/ CallStep(p)
+MustCrash(p) == Planned /\ ncrash < MaxCrash /\ pc[p] \notin {"idle", "End"} /\ op[p].cplan = op[p].n + 1
+
+Next == \/ \E p \in Procs : Begin(p) \/ End(p) \/ Crash(p) \/ (~MustCrash(p) /\ CallStep(p))
         \/ Edit
 
 Init ==
@@ -849,10 +878,20 @@ Init ==
   /\ nfaults = 0 /\ ncrash = 0 /\ nedits = 0
   /\ last = Lab(0, "init", "", "", "", TRUE, FALSE)
   /\ pre = [p \in Procs |-> [store |-> <<>>, cluster |-> <<>>]]
-  /\ hist = <<>>
+  /\ hist = <<[step |-> "init", cluster |-> cluster]>>
+  /\ kfg = {}
 
 Spec == Init /\ [][Next]_vars
 
+\* Scenario export for simulation runs (CONSTRAINT GenExport, -workers 1): when the last
+\* operation of a behaviour has returned, write the scenario (operations with flags, fault /
+\* crash ordinals and the label of the faulted call, out-of-band edits, initial cluster).
+GenExport ==
+  IF (\A p \in Procs : pc[p] = "idle" /\ nops[p] = MaxOps) /\ last.ev \in {"end", "crash"}
+  THEN /\ TLCSet(1, TLCGet(1) + 1)
+       /\ JsonSerialize("gen/s" \o ToString(TLCGet(1)) \o ".json", [steps |-> hist, n |-> TLCGet(1)])
+  ELSE TRUE
+
 \* fingerprint without the observation-only variables
-View == <<store, cluster, pc, op, nops, nfaults, ncrash, nedits, pre>>
+View == <<store, cluster, pc, op, nops, nfaults, ncrash, nedits, pre, kfg>>
 =============================================================================
